@@ -325,6 +325,17 @@ impl ReadCursor {
     }
 }
 
+impl Drop for ReadCursor {
+    fn drop(&mut self) {
+        // the last published group is owned by the cursor; retired ones by the memory manager
+        let last_group = self.readers.load(Ordering::Relaxed);
+        unsafe {
+            ptr::read(last_group);
+            alloc::deallocate(last_group, 1);
+        }
+    }
+}
+
 #[cfg(multiqueue2_verif)]
 impl Reader {
     pub fn verif_layout(&self, l: &mut crate::verif_hooks::Layout) {
